@@ -2,7 +2,7 @@
    Property theorems only; every proof is `exact <lemma>`; Print Assumptions under each. *)
 From Coq Require Import List ZArith Bool Permutation Sorted.
 Import ListNotations.
-Require Import Pyrefact.SchedModel Pyrefact.SchedProofs Pyrefact.SchedPermProofs.
+Require Import Pyrefact.SchedModel Pyrefact.SchedProofs Pyrefact.SchedPermProofs Pyrefact.SchedSortProofs.
 Require Import Pyrefact.FilesModel Pyrefact.FilesProofs.
 Open Scope Z_scope.
 
@@ -23,6 +23,37 @@ Theorem T06_1_yield_order_irrelevant_without_conflicts :
                 (map snd (schedule T teqb tcmp ilines (pre ++ g' :: post))).
 Proof. exact schedule_perm_invariant. Qed.
 Print Assumptions T06_1_yield_order_irrelevant_without_conflicts.
+
+(* T06.1, list form: for a lawful order on the new texts the scheduled rewrites come out in the same ORDER
+   too (the final sort is by (range, text); entries that compare equal are equal rewrites) ... *)
+Theorem T06_1_same_list_for_every_yield_order :
+  forall (T : Type) (teqb : T -> T -> bool) (tcmp : T -> T -> comparison),
+    (forall a b, teqb a b = true <-> a = b) ->
+    (forall a b, tcmp a b = Eq <-> a = b) ->
+    (forall a b, tcmp a b = CompOpp (tcmp b a)) ->
+    (forall a b c, tcmp a b = Lt -> tcmp b c = Lt -> tcmp a c = Lt) ->
+  forall (ilines : list range) (pre post : list (list (yielded T))) (g g' : list (yielded T)),
+    Permutation g g' ->
+    Forall (is_default T) g ->
+    NoDup (map (yrw T) g) ->
+    ForallOrdPairs (fun a b => overlaps (rrng a) (rrng b) = false) (map (yrw T) g) ->
+    map snd (schedule T teqb tcmp ilines (pre ++ g :: post))
+    = map snd (schedule T teqb tcmp ilines (pre ++ g' :: post)).
+Proof. exact schedule_perm_invariant_list. Qed.
+Print Assumptions T06_1_same_list_for_every_yield_order.
+
+(* ... and, for the concrete text order of the correspondence, the text produced by the pass is the same *)
+Theorem T06_1_same_text_for_every_yield_order :
+  forall (ilines : list range) (src : list Z) (pre post : list (list (yielded (list Z))))
+         (g g' : list (yielded (list Z))),
+    Permutation g g' ->
+    Forall (is_default (list Z)) g ->
+    NoDup (map (yrw (list Z)) g) ->
+    ForallOrdPairs (fun a b => overlaps (rrng a) (rrng b) = false) (map (yrw (list Z)) g) ->
+    apply_all Z src (map (fun e => (rrng (snd e), rnew (snd e))) (schedule_text ilines (pre ++ g :: post)))
+    = apply_all Z src (map (fun e => (rrng (snd e), rnew (snd e))) (schedule_text ilines (pre ++ g' :: post))).
+Proof. exact pass_text_perm_invariant. Qed.
+Print Assumptions T06_1_same_text_for_every_yield_order.
 
 (* R06.2 with a conflict and default transaction numbers the first one yielded wins ... *)
 Theorem R06_2_first_yield_wins :
